@@ -3,6 +3,7 @@
 # Like muttest.sh, but builds the checker from the worktree this script lives in.
 here=$(cd "$(dirname "$0")/.." && pwd)
 patch=$1; prop=$2; shift 2
+[ -d /tmp/mut ] || git -C /repo worktree add -q --detach /tmp/mut HEAD || exit 2  # scratch worktree; remove with: git -C /repo worktree remove --force /tmp/mut
 cd /tmp/mut && git checkout -q -- . && git clean -fdq && git apply "$patch" || exit 2
 cd "$here" && sed 's|=> /repo|=> /tmp/mut|' go.mod > /tmp/devmut.mod && cp go.sum /tmp/devmut.sum
 GOFLAGS=-mod=mod GOPROXY=off go build -modfile=/tmp/devmut.mod -tags verif -o /tmp/devmut/raftmc ./cmd/raftmc || exit 2
